@@ -94,6 +94,7 @@ class Ops:
     # ---- scalar helpers
     def uf(self, name, *args):
         f = UF[name]
+        args = [self.ctx.unwrap(a) if isinstance(a, Opt) else a for a in args]
         targs = [term(a, real=(f.domain(k) == R)) for k, a in enumerate(args)]
         t = f(*targs)
         self.ctx.note_app(name, targs, t)
